@@ -1,4 +1,5 @@
 pub mod analysis;
 pub mod ast;
 pub mod encode;
+pub mod satsize;
 pub mod spec;
